@@ -479,6 +479,66 @@ _ISOLATED_TABLE = [
     ("keepL", ["self._prev_isolated_links = isolated_links"]),
     ("returnCounts", ["return (len(isolated_junctions), len(isolated_links))"]),
 ]
+_ENDIDS = ["from_node_name = link.start_node_name", "to_node_name = link.end_node_name",
+           "from_node_id = self._node_name_to_id[from_node_name]", "to_node_id = self._node_name_to_id[to_node_name]"]
+_INIT_TABLE = [
+    ("initLists", ["n_links = OrderedDict()", "rows = []", "cols = []", "vals = []"]),
+    ("forInitLinks", r"for \(link_name, link\) in itertools\.chain\(.*\)", "for", [
+        ("endIds", _ENDIDS),
+        ("ifNewPair", r"if \(from_node_id, to_node_id\) not in n_links", "if",
+         [("zeroCounts", ["n_links[from_node_id, to_node_id] = 0", "n_links[to_node_id, from_node_id] = 0"])]),
+        ("incCounts", ["n_links[from_node_id, to_node_id] += 1", "n_links[to_node_id, from_node_id] += 1"]),
+        ("pushBoth", ["rows.append(from_node_id)", "cols.append(to_node_id)", "rows.append(to_node_id)", "cols.append(from_node_id)"]),
+        ("ifLinkClosed", r"if link\.status == " + _CLOSED.replace(".", r"\."), "if",
+         [("push0", ["vals.append(0)", "vals.append(0)"])], [("push1", ["vals.append(1)", "vals.append(1)"])])]),
+    ("buildCsr", ["rows = np.array(rows, dtype=self._int_dtype)", "cols = np.array(cols, dtype=self._int_dtype)",
+                  "vals = np.array(vals, dtype=self._int_dtype)", "n_nodes = self._wn.num_nodes",
+                  "self._internal_graph = scipy.sparse.csr_matrix((vals, (rows, cols)), shape=(n_nodes, n_nodes))"]),
+    ("newNdxMap", ["ndx_map = OrderedDict()"]),
+    ("forNdxLinks", r"for \(link_name, link\) in self\._wn\.\w+\(\)", "for", [
+        ("endIds", _ENDIDS),
+        ("lookupBoth", ["ndx1 = _get_csr_data_index(self._internal_graph, from_node_id, to_node_id)",
+                        "ndx2 = _get_csr_data_index(self._internal_graph, to_node_id, from_node_id)",
+                        "ndx_map[link] = (ndx1, ndx2)"])]),
+    ("keepNdxMap", ["self._map_link_to_internal_graph_data_ndx = ndx_map"]),
+    ("rowLengths", ["self._number_of_connections = [0 for i in range(self._wn.num_nodes)]",
+                    "for node_id in self._node_id_to_name.keys():\n    self._number_of_connections[node_id] = "
+                    "self._internal_graph.indptr[node_id + 1] - self._internal_graph.indptr[node_id]",
+                    "self._number_of_connections = np.array(self._number_of_connections, dtype=self._int_dtype)"]),
+    ("newMulti", ["self._node_pairs_with_multiple_links = OrderedDict()"]),
+    ("forPairs", r"for \(from_node_id, to_node_id\) in n_links\.keys\(\)", "for", [
+        ("ifSeveral", r"if n_links\[from_node_id, to_node_id\] > 1", "if", [
+            ("skipReverse", ["if (to_node_id, from_node_id) in self._node_pairs_with_multiple_links:\n    continue"]),
+            ("zeroPair", ["self._internal_graph[from_node_id, to_node_id] = 0", "self._internal_graph[to_node_id, from_node_id] = 0"]),
+            ("newList", ["from_node_name = self._node_id_to_name[from_node_id]", "to_node_name = self._node_id_to_name[to_node_id]",
+                         "tmp_list = self._node_pairs_with_multiple_links[from_node_id, to_node_id] = []"]),
+            ("forLinksOfFrom", r"for link_name in self\._wn\.get_links_for_node\(from_node_name\)", "for", [
+                ("getLink", ["link = self._wn.get_link(link_name)"]),
+                ("ifTouchesTo", r"if link\.start_node_name == to_node_name or link\.end_node_name == to_node_name", "if", [
+                    ("appendLink", ["tmp_list.append(link)"]),
+                    ("ifLinkNotClosed", r"if link\.status != " + _CLOSED.replace(".", r"\."), "if", [
+                        ("write1", ["ndx1, ndx2 = ndx_map[link]", "self._internal_graph.data[ndx1] = 1",
+                                    "self._internal_graph.data[ndx2] = 1"])])])])])]),
+    ("newSources", ["self._source_ids = []"]),
+    ("forSources", r"for \(node_name, node\) in self\._wn\.\w+\(\)", "for",
+     [("appendSource", ["node_id = self._node_name_to_id[node_name]", "self._source_ids.append(node_id)"])]),
+    ("packSources", ["self._source_ids = np.array(self._source_ids, dtype=self._int_dtype)"]),
+]
+_CSRINDEX_TABLE = [
+    ("rowStart", ["row_indptr = a.indptr[row]"]),
+    ("rowLen", ["num = a.indptr[row + 1] - row_indptr"]),
+    ("rowCols", ["cols = a.indices[row_indptr:row_indptr + num]"]),
+    ("counter0", ["n = 0"]),
+    ("forCols", r"for j in cols", "for", [
+        ("ifColEq", r"if j == col", "if", [("returnPos", ["return row_indptr + n"])]),
+        ("incCounter", ["n += 1"])]),
+    ("raiseNotFound", ["raise RuntimeError('Unable to find csr data index.')"]),
+]
+_HEAD_CALLS = [("self._prev_isolated_junctions =", "seedJ"), ("self._prev_isolated_links =", "seedL"),
+               ("create_hydraulic_model(", "createModel"), ("self._get_control_managers()", "controlManagers"),
+               ("self._register_controls_with_observers()", "registerObservers"),
+               ("self._initialize_internal_graph()", "initGraph"), ("self._change_tracker.set_reference_point('graph')", "refGraph"),
+               ("self._change_tracker.set_reference_point('model')", "refModel")]
 _CALL_ARGS = {"self._source_ids": "sourceIds", "node_indicator": "onesPerNode", "self._internal_graph.indptr": "graphIndptr",
               "self._internal_graph.indices": "graphIndices", "self._internal_graph.data": "graphData",
               "self._number_of_connections": "numberOfConnections"}
@@ -539,6 +599,23 @@ def py_shapes(path):
         raise vlib.BrokenTie("_get_isolated_junctions_and_links: no call of check_for_isolated_junctions")
     out["isolatedToks"] = _match_stmts(body, _ISOLATED_TABLE + [("callSearch", ["__callSearch__"])], "_get_isolated_junctions_and_links")
     out["callArgs"] = [_CALL_ARGS.get(ast.unparse(a), "other") for a in call.args] + ["other"] * len(call.keywords)
+    out["initToks"] = _match_stmts(init.body, _INIT_TABLE, "_initialize_internal_graph")
+    fn = [n for n in tree.body if isinstance(n, ast.FunctionDef) and n.name == "_get_csr_data_index"]
+    if len(fn) != 1:
+        raise vlib.BrokenTie("core.py: _get_csr_data_index not found")
+    out["csrIndexToks"] = _match_stmts(fn[0].body, _CSRINDEX_TABLE, "_get_csr_data_index")
+    head = []
+    for st in run.body:
+        if isinstance(st, ast.While):
+            break
+        txt = ast.unparse(st)
+        hits = [tok for key, tok in _HEAD_CALLS if key in txt]
+        if not hits:
+            continue
+        if not isinstance(st, (ast.Assign, ast.Expr)) or len(hits) != 1:
+            raise vlib.BrokenTie("run_sim head: %s is not a plain statement: %s" % (hits, txt[:160]))
+        head += hits
+    out["headToks"] = head
     # --- the loop body of run_sim
     loop = [st for st in run.body if isinstance(st, ast.While)]
     if len(loop) != 1:
@@ -607,8 +684,10 @@ def write_shape(repo):
            "/-- the arguments `_get_isolated_junctions_and_links` passes, in order -/\ndef callArgs : List PyArg := %s\n\n"
            "/-- registry generators iterated by `_initialize_internal_graph` and by the head of `run_sim` -/\ndef iter : Iter :=\n  %s\n\n"
            "def updateToks : List PyTok := %s\n\ndef isolatedToks : List PyTok := %s\n\n"
+           "def initToks : List PyTok := %s\n\ndef csrIndexToks : List PyTok := %s\n\ndef headToks : List PyTok := %s\n\n"
            "/-- the `while True:` body of `run_sim` -/\ndef loopToks : List LoopTok := %s\n\nend Wntr.Isolation.Gen\n"
-           % (body, lst(params), lst(py["callArgs"]), py["iter"], lst(py["updateToks"]), lst(py["isolatedToks"]), lst(py["loopToks"])))
+           % (body, lst(params), lst(py["callArgs"]), py["iter"], lst(py["updateToks"]), lst(py["isolatedToks"]), lst(py["initToks"]),
+              lst(py["csrIndexToks"]), lst(py["headToks"]), lst(py["loopToks"])))
     vlib.write_if_changed(os.path.join(vlib.LEAN, "WntrModel/Gen/IsolationShape.lean"), txt)
 
 
@@ -1767,9 +1846,9 @@ class C09(Check):
     def _cases(self, ctx, wide=False):
         rng = ctx.rng
         q = ctx.quick and not wide
-        csr = [gen_csr(rng, big=not q) for _ in range(150 if q else 1500)]
+        csr = [gen_csr(rng, big=not q) for _ in range(150 if q else 4000)]
         nets = []
-        for _ in range(60 if q else 500):
+        for _ in range(60 if q else 1500):
             net = gen_net(rng, quick=q)
             internal0 = [ACTIVE if rng.random() < 0.9 else rng.choice([CLOSED, OPEN]) for _ in net["links"]]
             nets.append((net, internal0, gen_ops(rng, net, quick=q)))
@@ -1779,13 +1858,13 @@ class C09(Check):
                 net = gen_net(rng, quick=True, linkless_tail=True)
             net["kinds"][-1] = "J"
             nets.append((net, [ACTIVE] * len(net["links"]), ["p"]))
-        runs = [gen_run(rng, quick=q) for _ in range(14 if q else 120)]
-        runs += [gen_swap_run(rng) for _ in range(3 if q else 20)]
-        runs += [gen_pause_run(rng) for _ in range(3 if q else 20)]
+        runs = [gen_run(rng, quick=q) for _ in range(14 if q else 300)]
+        runs += [gen_swap_run(rng) for _ in range(3 if q else 40)]
+        runs += [gen_pause_run(rng) for _ in range(3 if q else 40)]
         # pumps / valves (PRV, PSV, FCV, TCV) / check-valve pipes on the backbone, zones containing them cut off and reconnected;
         # a third of them paused while cut off and reconnected at the first step of the continued run
         elem = []
-        for i in range(36 if q else 300):
+        for i in range(36 if q else 2000):
             elem.append(gen_elem_run(rng, want=SPECIAL_KINDS[i % len(SPECIAL_KINDS)] if i % 2 == 0 else None,
                                      pause_mode="first" if i % 3 == 0 else None))
         # variants of the same scenarios: the piecewise Hazen-Williams rows, and a second run of the same simulator object
